@@ -378,7 +378,13 @@ def rule_clamp(ctx) -> None:
                   "the plan bundle forwards ctx.slice_budgets['t3_ops'] as slice_caps", "the plan bundle no longer forwards the t3_ops slice cap")
 
 
+def rule_zero_budget(ctx) -> None:
+    from ..zero import zero_budget_rule
+    zero_budget_rule(ctx, "C17.BOUNDARY", ["clematis.engine.orchestrator.core", "clematis.engine.stages.t1", "clematis.engine.stages.t2.core", "clematis.engine.stages.t3.bundle", "clematis.engine.stages.t3.policy", "clematis.engine.stages.t3.legacy"], 6)
+
+
 def run(ctx) -> None:
+    rule_zero_budget(ctx)
     rule_pure(ctx)
     rule_elig(ctx)
     rule_prec(ctx)
